@@ -126,7 +126,15 @@ FnDef(f) ==
     [] f = "f_mix" -> [params |-> <<"a", "b">>, panns |-> <<ATp(1, 1), ATpE(1, 1)>>, rann |-> ATpDE(1, 1, 2, 1),
                     wheres |-> << >>, body |-> Bin("mul", V("a"), Bin("mul", V("b"), V("b"))),
                     text |-> "fn f_mix<D: Dim, E: Dim>(a: D, b: E) -> D * E^2 = a * (b * b)"]
-FnNames == {"f_len", "f_sq", "f_sum", "f_inf", "f_where", "f_sqrt", "f_quot", "f_mix"}
+    \* a parameter / a where-variable named like a unit shadows the BARE unit name only: km, cm stay the units
+    [] f = "f_shp" -> [params |-> <<"m">>, panns |-> <<AConc(Vec(0, 1, 0))>>, rann |-> ANone,
+                    wheres |-> << >>, body |-> Bin("mul", Bin("mul", Num(2, 1, "2"), U("km")), V("m")),
+                    text |-> "fn f_shp(m: Time) = (2 * km) * m"]
+    [] f = "f_shw" -> [params |-> <<"x">>, panns |-> <<AConc(Vec(1, 0, 0))>>, rann |-> ANone,
+                    wheres |-> << [name |-> "m", e |-> Bin("mul", Num(2, 1, "2"), U("s"))] >>,
+                    body |-> Bin("div", Bin("mul", V("x"), U("cm")), V("m")),
+                    text |-> "fn f_shw(x: Length) = (x * cm) / m where m = 2 * s"]
+FnNames == {"f_len", "f_sq", "f_sum", "f_inf", "f_where", "f_sqrt", "f_quot", "f_mix", "f_shp", "f_shw"}
 
 \* struct ZS { a: Length, b: Time }
 StructText == "struct ZS { a: Length, b: Time }"
